@@ -1107,10 +1107,10 @@ def shards(tier):
 def run_shard(spec, ctx):
     kind, k, n = spec
     if kind == "hyp":
-        run_given(cases(25), evaluate, ctx, ctx.pick(400, 10000), shrink=False)
+        run_given(cases(25), evaluate, ctx, ctx.pick(400, 50000), shrink=False)
     else:
         rnd = random.Random(ctx.seed * 11 + 5)
-        for _ in range(ctx.pick(700, 30000)):
+        for _ in range(ctx.pick(700, 150000)):
             raw = Builder(RndChooser(rnd), 25).case()
             evaluate(raw, ctx.col)
 
